@@ -268,7 +268,8 @@ Proof. exact iff_nonvacuous. Qed.
      from_txdata_interp_sound: the composition for every script-bearing arm, instantiated with the
        evaluator's soundness theorem (interp_sound_partial = InterpMain.interp_sound_env); the composition
        only concerns script kinds, so it carries no _partial suffix.
-     from_txdata_complete_std_partial: P2WSH only.  MISSING arms: sh-wsh, sh, bare, tr, key-only kinds.
+     from_txdata_complete_std_partial_{wsh,shwsh,sh,bare,tr}: every script-bearing arm.  MISSING arms: the
+       key-only kinds.
    Taproot leaf version: from_txdata asks rust-bitcoin for the commitment of the control block only and never
    tests that the leaf version is 0xc0; the specification's [co] includes that test.  The equation keeps
    [co sb cb] as a factor ([cbok]); the composition assumes [f_commit fe sb cb = true -> co sb cb = true], i.e.
@@ -299,14 +300,60 @@ Theorem from_txdata_sound_tr_eq :
 Proof. exact from_txdata_sound_tr. Qed.
 Print Assumptions from_txdata_sound_tr_eq.
 
-Theorem from_txdata_complete_std_partial :
+(* completeness, one theorem per script-bearing arm (together: from_txdata_complete_std_partial; MISSING arms:
+   the key-only kinds).  Common shape: the specification accepts + the scriptSig lexes into pushes / OP_1
+   ([ssig_stack_of ssig = Some ..]; see from_txdata_opn_expected_push for why this is needed) + the library
+   decodes the script element in the arm's context (+ taproot: keys / control block parse, commitment checks
+   agree)  =>  the model answers Ok with that script, the rest of the stack and the script as script code. *)
+Theorem from_txdata_complete_std_partial_wsh :
   forall e fe co spk ssig wit prog,
     spk_is_p2wsh spk = Some prog ->
     verify_spend e co spk ssig wit = true ->
     (forall sb, hd_error (rev wit) = Some sb -> f_dec fe DSegv0 sb = true) ->
     exists sb st, from_txdata e fe spk ssig wit = FOk (InScript sb StWsh) st (Some sb) /\ rev wit = sb :: map conc st.
 Proof. exact from_txdata_complete_wsh. Qed.
-Print Assumptions from_txdata_complete_std_partial.
+Print Assumptions from_txdata_complete_std_partial_wsh.
+
+Theorem from_txdata_complete_std_partial_shwsh :
+  forall e fe co spk ssig wit h el r prog,
+    spk_is_p2sh spk = Some h ->
+    ssig_stack_of ssig = Some (el :: r) -> spk_is_p2wsh (conc el) = Some prog ->
+    verify_spend e co spk ssig wit = true ->
+    (forall sb, hd_error (rev wit) = Some sb -> f_dec fe DSegv0 sb = true) ->
+    exists sb st, from_txdata e fe spk ssig wit = FOk (InScript sb StShWsh) st (Some sb) /\ rev wit = sb :: map conc st.
+Proof. exact from_txdata_complete_shwsh. Qed.
+Print Assumptions from_txdata_complete_std_partial_shwsh.
+
+Theorem from_txdata_complete_std_partial_sh :
+  forall e fe co spk ssig wit h el r,
+    spk_is_p2sh spk = Some h ->
+    ssig_stack_of ssig = Some (el :: r) -> spk_is_p2wsh (conc el) = None -> spk_is_p2wpkh (conc el) = None ->
+    verify_spend e co spk ssig wit = true ->
+    f_dec fe DLegacy (conc el) = true ->
+    from_txdata e fe spk ssig wit = FOk (InScript (conc el) StSh) r (Some (conc el)).
+Proof. exact from_txdata_complete_sh. Qed.
+Print Assumptions from_txdata_complete_std_partial_sh.
+
+Theorem from_txdata_complete_std_partial_bare :
+  forall e fe co spk ssig wit st,
+    spk_is_p2pk spk = None -> spk_is_p2pkh spk = None -> spk_is_p2wpkh spk = None -> spk_is_p2wsh spk = None ->
+    spk_is_p2tr spk = None -> spk_is_p2sh spk = None ->
+    ssig_stack_of ssig = Some st ->
+    verify_spend e co spk ssig wit = true ->
+    f_dec fe DBare spk = true ->
+    from_txdata e fe spk ssig wit = FOk (InScript spk StBare) st (Some spk).
+Proof. exact from_txdata_complete_bare. Qed.
+Print Assumptions from_txdata_complete_std_partial_bare.
+
+Theorem from_txdata_complete_std_partial_tr :
+  forall e fe co spk ssig wit k cb sb items,
+    spk_is_p2tr spk = Some k -> rev wit = cb :: sb :: items ->
+    verify_spend e co spk ssig wit = true ->
+    f_xonly fe k = true -> cb_decode_ok fe cb = true -> f_dec fe DTap sb = true ->
+    (co sb cb = true -> f_commit fe sb cb = true) ->
+    exists st, from_txdata e fe spk ssig wit = FOk (InScript sb StTr) st (Some sb) /\ items = map conc st.
+Proof. exact from_txdata_complete_tr. Qed.
+Print Assumptions from_txdata_complete_std_partial_tr.
 
 (* model of from_txdata answers Ok(Script ..) and the evaluator model accepts the decoded miniscript on the
    stack it was handed (hypotheses of interp_sound_partial, under the kind's signature version) and the kind's
